@@ -380,6 +380,31 @@ async def _(c):
         c.mark('step%d:e' % n)
 
 
+@op('retry_after_the_same_operation_was_interrupted')
+async def _(c):
+    # the first attempt is interrupted at its first break point (an until() whose flag is already set); whatever that
+    # leaves behind must not let the second attempt complete without yielding
+    q = Queue()
+    await q.put(1)
+    await q.put(2)
+    ch_flag, t, r = Flag(), Tracked(1), Resources(a=2)
+    await ch_flag.set()
+
+    async def borrow():
+        async with r.borrow(a=1):
+            pass
+    for label, mk in (('queue_get', lambda: _aw(q)), ('queue_put', lambda: q.put(3)), ('await_flag', lambda: _aw(ch_flag)),
+                      ('tracked_set', lambda: t.set(5)), ('borrow', borrow), ('increase', lambda: r.increase(a=1)),
+                      ('instant', lambda: _aw(instant))):
+        f = Flag()
+        await f.set()
+        async with until(f):
+            await mk()
+        c.mark(label + ':s')
+        await mk()
+        c.mark(label + ':e')
+
+
 async def _guard(cond):
     async with until(cond):
         await usim.eternity
